@@ -146,7 +146,7 @@ static void pseudo_store(tcallback callback, Word MaxMultCharLen) {
                 goto ToInt;
             }
 
-            while (cp < cend) {
+            while (ok && (cp < cend)) {
                 callback(&ok, &adr, CharTransTable[((usint)*cp++) & 0xff], t.Flags);
             }
             break;
@@ -169,10 +169,24 @@ func_exit:
     as_tempres_free(&t);
 }
 
+/* make room for (at least) two more words behind position adr of the code buffer */
+
+static Boolean wr_code_room(Boolean* ok, int adr) {
+    if (SetMaxCodeLen(((LongWord)adr + 2) * 2)) {
+        WrError(ErrNum_CodeOverflow);
+        *ok = False;
+        return False;
+    }
+    return True;
+}
+
 static void wr_code_byte(Boolean* ok, int* adr, LongInt val, tSymbolFlags Flags) {
     if (!mFirstPassUnknownOrQuestionable(Flags) && !RangeCheck(val, Int8)) {
         WrError(ErrNum_OverRange);
         *ok = False;
+        return;
+    }
+    if (!wr_code_room(ok, *adr)) {
         return;
     }
     WAsmCode[(*adr)++] = val & 0xff;
@@ -185,14 +199,19 @@ static void wr_code_word(Boolean* ok, int* adr, LongInt val, tSymbolFlags Flags)
         *ok = False;
         return;
     }
+    if (!wr_code_room(ok, *adr)) {
+        return;
+    }
     WAsmCode[(*adr)++] = val;
     CodeLen            = *adr;
 }
 
 static void wr_code_long(Boolean* ok, int* adr, LongInt val, tSymbolFlags Flags) {
-    UNUSED(ok);
     UNUSED(Flags);
 
+    if (!wr_code_room(ok, *adr)) {
+        return;
+    }
     WAsmCode[(*adr)++] = val & 0xffff;
     WAsmCode[(*adr)++] = val >> 16;
     CodeLen            = *adr;
@@ -202,6 +221,9 @@ static void wr_code_byte_hilo(Boolean* ok, int* adr, LongInt val, tSymbolFlags F
     if (!mFirstPassUnknownOrQuestionable(Flags) && !RangeCheck(val, Int8)) {
         WrError(ErrNum_OverRange);
         *ok = False;
+        return;
+    }
+    if (!wr_code_room(ok, *adr)) {
         return;
     }
     if ((*adr) & 1) {
@@ -216,6 +238,9 @@ static void wr_code_byte_lohi(Boolean* ok, int* adr, LongInt val, tSymbolFlags F
     if (!mFirstPassUnknownOrQuestionable(Flags) && !RangeCheck(val, Int8)) {
         WrError(ErrNum_OverRange);
         *ok = False;
+        return;
+    }
+    if (!wr_code_room(ok, *adr)) {
         return;
     }
     if ((*adr) & 1) {
@@ -655,6 +680,10 @@ static void DecodeSINGLE(Word Code) {
         OK = True;
         forallargs(pArg, True) if (OK) {
             f = EvalStrFloatExpression(pArg, Float64, &OK);
+            if (OK && SetMaxCodeLen((CodeLen + 1) * 4)) {
+                WrError(ErrNum_CodeOverflow);
+                OK = False;
+            }
             if (OK) {
                 OK = OK && ExtToTIC34xSingle(f, DAsmCode + (CodeLen++));
             }
@@ -676,6 +705,10 @@ static void DecodeEXTENDED(Word Code) {
         OK = True;
         forallargs(pArg, True) if (OK) {
             f = EvalStrFloatExpression(pArg, Float64, &OK);
+            if (OK && SetMaxCodeLen((CodeLen + 2) * 4)) {
+                WrError(ErrNum_CodeOverflow);
+                OK = False;
+            }
             if (OK) {
                 OK = OK && ExtToTIC34xExt(f, DAsmCode + CodeLen + 1, DAsmCode + CodeLen);
             }
@@ -695,8 +728,14 @@ static void DecodeWORD_TI34x(Word Code) {
 
     if (ChkArgCnt(1, ArgCntMax)) {
         OK = True;
-        forallargs(pArg, True) if (OK) DAsmCode[CodeLen++]
-                = EvalStrIntExpression(pArg, Int32, &OK);
+        forallargs(pArg, True) if (OK) {
+            if (SetMaxCodeLen((CodeLen + 1) * 4)) {
+                WrError(ErrNum_CodeOverflow);
+                OK = False;
+            } else {
+                DAsmCode[CodeLen++] = EvalStrIntExpression(pArg, Int32, &OK);
+            }
+        }
         if (!OK) {
             CodeLen = 0;
         }
@@ -715,6 +754,13 @@ static void DecodeDATA_TI34x(Word Code) {
         OK = True;
         forallargs(pArg, OK) if (OK) {
             EvalStrExpression(pArg, &t);
+            if (SetMaxCodeLen(
+                        (CodeLen + 1 + ((t.Typ == TempString) ? (t.Contents.str.len + 3) / 4 : 0))
+                        * 4)) {
+                WrError(ErrNum_CodeOverflow);
+                OK = False;
+                break;
+            }
             switch (t.Typ) {
             case TempInt:
             ToInt:
